@@ -22,6 +22,9 @@ Import ListNotations.
 Open Scope string_scope.
 
 Definition sites : list (string * nat) := [
+  ("x/hard/keeper/liquidation.go|removeDuplicates|sort.Strings|res", 2%nat);
+  ("x/hard/types/liquidation.go|ValuationMap.GetSortedKeys|sort.Strings|keys", 2%nat);
+  ("x/incentive/keeper/rewards_earn.go|Keeper.accumulateEarnBkavaRewards|sort.Strings|sortedBkavaVaultsDenoms", 2%nat);
   ("app/app.go|*App.ModuleAccountAddrs|maprange|mAccPerms", 1%nat);
   ("app/app.go|*App.loadBlockedMaccAddrs|maprange|modAccAddrs", 1%nat);
   ("app/app.go|GetMaccPerms|maprange|mAccPerms", 1%nat);
